@@ -20,9 +20,83 @@ def gen_cases(ctx):
         else:
             s = gens.rand_string(ctx.rng, 16)
         lines.append("tok %s" % hexs(s))
+    # quote-focused exhaustive stream: runs of backslashes before delimiters, doubled delimiters, marks inside quotes
+    qalpha = ["'", '"', "\\", "?", "a", " "]
+    qmax = 6 if ctx.quick else 8
+    nq = 0
+    for s in gens.shortlex(qalpha, qmax):
+        if len(s) > maxlen:
+            lines.append("tok %s" % hexs(s))
+            nq += 1
+    # piecewise templates (the language of the Coq theorem C11_tokenize_pieces): the expected token list is known
+    # by construction - one token per piece
+    npieces = 3000 if ctx.quick else 60000
+    for _ in range(npieces):
+        text, want = piecewise(ctx.rng)
+        line = "tok %s" % hexs(text)
+        PIECES[line] = want
+        lines.append(line)
     ctx.cov["distribution"] = {"exhaustive_alphabet": [hex(ord(c)) for c in ALPHA], "exhaustive_maxlen": maxlen,
-                               "random": n}
+                               "quote_alphabet": qalpha, "quote_exhaustive_maxlen": qmax, "quote_strings": nq,
+                               "piecewise_templates": npieces, "random": n}
     return lines
+
+
+PIECES = {}
+CLOSER = {"'": "'", '"': '"', "`": "`", "[": "]"}
+
+
+def piecewise(rng):
+    """a text assembled from non-fusing pieces and its expected tokens [(kind, text)]:
+    Q = well-formed quoted text (plain chars, doubled delimiters, backslash + any char: runs of backslashes of any
+    length before a delimiter included), U = word, S = blank run, P = one punctuation character"""
+    out = []
+    prev = None
+    for _ in range(rng.randrange(1, 7)):
+        kinds = ["Q", "U", "S", "P"]
+        if prev in ("U", "S"):
+            kinds.remove(prev)          # two words / two blank runs in a row would fuse
+        k = rng.choice(kinds)
+        if k == "Q":
+            st = rng.choice(list(CLOSER))
+            body = ""
+            for _ in range(rng.randrange(0, 5)):
+                c = rng.random()
+                if c < 0.35:
+                    body += rng.choice(["a", "?", "$", " ", "1", "é"] + [d for d in "'\"`[" if d != st and CLOSER.get(d, d) != CLOSER[st]])
+                elif c < 0.55 and st != "[":
+                    body += CLOSER[st] * 2                      # doubled delimiter
+                else:
+                    # a run of backslash-escaped characters: \\ .. \' etc. (each backslash escapes the next char)
+                    for _ in range(rng.randrange(1, 4)):
+                        body += "\\" + rng.choice(["\\", CLOSER[st], "a", "?", st])
+            text = st + body + CLOSER[st]
+            # the closing delimiter must not be followed by the same delimiter (it would read as a doubled one)
+            if out and out[-1][0] == "Q" and st != "[" and out[-1][1][-1] == st:
+                out.append(("S", " "))
+            out.append(("Q", text))
+        elif k == "U":
+            out.append(("U", rng.choice(["a", "ab1", "x_y", "a$1", "SELECT", "é9"])))
+        elif k == "S":
+            out.append(("S", rng.choice([" ", "  ", " \t", "\n "])))
+        else:
+            out.append(("P", rng.choice(["?", "$", "=", "(", ")", ",", ";", "-", "\\", "]", ".", "*"])))
+        prev = out[-1][0]
+    # repair fusions introduced by the punctuation / quote choices
+    fixed = []
+    for kind, text in out:
+        if fixed:
+            pk, pt = fixed[-1]
+            if pk == "Q" and kind == "Q" and pt[-1] == text[0] and pt[0] != "[":
+                fixed.append(("S", " "))
+            elif pk == "U" and kind == "P" and text in ("$",):
+                fixed.append(("S", " "))       # `$` continues a word
+            elif pk == "U" and kind == "U":
+                fixed.append(("S", " "))
+            elif pk == "S" and kind == "S":
+                continue
+        fixed.append((kind, text))
+    return "".join(t for _, t in fixed), fixed
 
 
 def oracle(case, out):
@@ -39,7 +113,12 @@ def oracle(case, out):
         cat += b
     if cat != vlib.unhex(h):
         return "concatenated tokens %s differ from the input %s" % (cat.hex(), h)
-    # quoted text is one token: a well-formed quoted prefix is never split
+    # piecewise templates: one token per piece, of the piece's kind (quoted text is ONE token whatever it contains)
+    want = PIECES.get(case)
+    if want is not None:
+        got = [(t[0], vlib.unhex(t[1:].split("/")[0]).decode("utf-8", "replace")) for t in toks]
+        if got != want:
+            return "tokens %r, the pieces are %r" % (got, want)
     return None
 
 
